@@ -54,6 +54,7 @@ var (
 
 //go:norace
 func chanReset() {
+	chanOps = 0
 	for i := range chanTab {
 		chanUsed[i] = false
 	}
@@ -115,6 +116,17 @@ func chanInstall(key uintptr) *chanState {
 }
 
 var chanStamp uint64
+
+var chanOps int
+
+// ChanOps reports how many channel operations of the library ran under the
+// scheduler since the last Reset.
+//
+//go:norace
+func ChanOps() int { return chanOps }
+
+//go:norace
+func countChanOp() { chanOps++ }
 
 //go:norace
 func chanForget(key uintptr) {
@@ -280,6 +292,7 @@ func blockForever() {
 }
 
 func sendValue(ch, v reflect.Value) {
+	countChanOp()
 	if ch.IsNil() {
 		blockForever()
 	}
@@ -321,6 +334,7 @@ func (sendOnClosed) RuntimeError()    {}
 func (e sendOnClosed) String() string { return e.Error() }
 
 func recvValue(ch reflect.Value) (reflect.Value, bool) {
+	countChanOp()
 	if ch.IsNil() {
 		blockForever()
 	}
